@@ -33,6 +33,8 @@ pub fn classify(res: std::thread::Result<anyhow::Result<()>>) -> String {
                 "mismatch".into()
             } else if m.contains("destination already exists") {
                 "destexists".into()
+            } else if m.contains("both would end up at the same path") {
+                "shareddest".into()
             } else if m.contains("Rollback encountered errors") {
                 "rollbackfailed".into()
             } else if m.contains("Failed to read current content") {
